@@ -16,6 +16,7 @@ package middlewares
 
 import (
 	"net/url"
+	"strings"
 
 	"github.com/gofiber/fiber/v2"
 	"github.com/versity/versitygw/backend"
@@ -34,7 +35,7 @@ func DecodeURL(logger s3log.AuditLogger, mm *metrics.Manager) fiber.Handler {
 		// names that a file system would resolve to another location are
 		// refused: "." and ".." segments in the path, separators in the
 		// version id and the upload id
-		if backend.HasDotSegment(unescp) ||
+		if backend.HasDotSegment(unescp) || backend.HasEmptySegment(strings.TrimPrefix(unescp, "/")) ||
 			!backend.IsPathComponent(ctx.Query("versionId")) ||
 			!backend.IsPathComponent(ctx.Query("uploadId")) {
 			return controllers.SendResponse(ctx, s3err.GetAPIError(s3err.ErrInvalidURI), &controllers.MetaOpts{Logger: logger, MetricsMng: mm})
